@@ -157,13 +157,20 @@ def ind (b : Bool) : R := if b then 1 else 0
 def pckAt (cast : Nat → R) (thr : R) (d : List (Option R)) : R :=
   cast (d.filter (within thr)).length / cast d.length
 
-/-- `pcks.mean(axis=0).mean(axis=-1)`: entry `k` = mean over thresholds of the mean over pairs -/
+/-- `pcks.mean(axis=0).mean(axis=-1)`: entry `k` = mean over thresholds of the mean over pairs.
+Without any positive pair `dists` has shape `(0,)` and the result is the empty array. -/
 def mPCKparts (cast : Nat → R) (thrs : List R) (d : List (List (Option R))) (nNodes : Nat) : List R :=
-  (List.range nNodes).map (fun k =>
-    mean cast (thrs.map (fun t => mean cast (d.map (fun row => ind (within t (row.getD k none)))))))
+  match d with
+  | [] => []
+  | _ :: _ =>
+    (List.range nNodes).map (fun k =>
+      mean cast (thrs.map (fun t => mean cast (d.map (fun row => ind (within t (row.getD k none)))))))
 
-def mPCK (cast : Nat → R) (thrs : List R) (d : List (List (Option R))) (nNodes : Nat) : R :=
-  mean cast (mPCKparts cast thrs d nNodes)
+/-- `mPCK_parts.mean()`; `none` = NaN (no positive pair: the mean of an empty array) -/
+def mPCK (cast : Nat → R) (thrs : List R) (d : List (List (Option R))) (nNodes : Nat) : Option R :=
+  match mPCKparts cast thrs d nNodes with
+  | [] => none
+  | l => some (mean cast l)
 
 end dist
 
@@ -230,14 +237,14 @@ def pairsFrom {G P : Type} (gt : Labels G) (pr : Labels P) : Nat → List VideoK
       | none => []
       | some pj => pairsOfVideo gt pr vi pj) ++ pairsFrom gt pr (vi + 1) rest
 
-/-- `find_frame_pairs(labels_gt, labels_pr, user_labels_only=True)` with F-C16c repaired
-(a backend without `dataset` compares as `None`) -/
+/-- `find_frame_pairs(labels_gt, labels_pr, user_labels_only=True)` (HEAD: a backend without `dataset`
+compares as `None`) -/
 def findFramePairs {G P : Type} (gt : Labels G) (pr : Labels P) : List (LFrame G × LFrame P) :=
   pairsFrom gt pr 0 gt.videos
 
-/-- the pinned tree: `video.backend.dataset` raises `AttributeError` as soon as a prediction video
+/-- **Historical (regression record only, not HEAD; F-C16c fixed by 5b8ee29).**  The tree before the fix: `video.backend.dataset` raised `AttributeError` as soon as a prediction video
 with the same backend class and filename as some gt video has no `dataset` attribute (`none` = raise) -/
-def findFramePairsAsIs {G P : Type} (gt : Labels G) (pr : Labels P) : Option (List (LFrame G × LFrame P)) :=
+def findFramePairsBeforeFix {G P : Type} (gt : Labels G) (pr : Labels P) : Option (List (LFrame G × LFrame P)) :=
   if gt.videos.any (fun vk => pr.videos.any (fun v =>
       v.kind == vk.kind && v.filename == vk.filename && (v.dataset.isNone || vk.dataset.isNone)))
   then none else some (findFramePairs gt pr)
